@@ -9,10 +9,12 @@ P = {
  "C02": None, "C03": None,
  "C05": ("other", "Six structural clauses: response bytes go out through Write::write_all; headers built by the request parser come from the CR/LF stripper; status_code and reason_phrase are always taken from the same registered status entry; the body reaches the bytes only where the method is neither HEAD nor OPTIONS; Content-Length/Content-Type derive from the emitted content range; header lines are name, ': ', value, CRLF with framing headers built in exclusive branches. Wire bytes are not re-parsed.",
          "MIR call-site rules, constant/table extraction, forward pairing of field assignments, edge dominance", "§4 C05"),
- "C09": None,
+ "C09": ("other", "Exhaustive over the method domain: each of the 20 matchers is abstractly executed for all 10 abstract method values (the method is only ever compared for equality with constants), and a matcher that can accept GET must be able to accept HEAD and OPTIONS under the same remaining conditions; 204 is selected only under method == OPTIONS; the serialiser drops the body for HEAD/OPTIONS and computes Content-Length from the content range, independently of the method.",
+         "finite-domain abstract interpretation of matcher CFGs over the request method + dominance rules", "§4 C09"),
  "C10": ("other", "Structurally sufficient: the default-header builder pushes each of the six required headers exactly once on every path with the required value (Vary provably names Origin), every reachable Response is built from the builder's result, no reachable code removes or re-creates those headers, and the serialiser iterates the whole list.",
          "must-pass-through / exactly-once CFG checks, who-may-construct and who-may-mutate rules, dataflow of the Vary value", "§4 C10"), "C11": ("other", "Every Access-Control-* header is built only in blocks dominated by the Origin-present test and, in restricted mode, by the true edge of an element-wise equality membership test (substring, prefix and case-insensitive operations are rejected); each grant takes its value from its own setting; the allow-all function is unreachable once the switch parsed to false (infeasible Err branches pruned).",
-         "edge dominance, classification of the membership operation, dataflow pairing header<->setting, pruned CFG reachability", "§4 C11"), "C12": None, "C14": None, "C15": None, "C17": None, "C18": None, "C19": None,
+         "edge dominance, classification of the membership operation, dataflow pairing header<->setting, pruned CFG reachability", "§4 C11"), "C12": ("other", "Table agreement and order: the four sources are folded in the order defaults, environment, config file, command line (call order by dominance in set-up, bootstrap and main); the flag table has one distinct (short, long, variable) entry per setting; each default is paired with its own constant and guarded by 'variable unset'; every spelling documented in rws.command_line, rws.config.toml and rws.variables reaches a table entry and vice versa; the '_'->'-' mapping touches the key only; the setter writes on every accepting path; getters read their own variables.",
+         "constant/table extraction from MIR aggregates, call-order dominance, dataflow pairing, comparison with documentation files", "§4 C12"), "C14": None, "C15": None, "C17": None, "C18": None, "C19": None,
  "C04": ("other", "Sufficient modulo the reviewed tables: every potential panic site (unwrap/expect, documented-panicking std call, overflow/bounds/division assert, explicit panic) reachable from the connection roots is guarded by a dominating check, exempt by table or allowlisted with a reason; no input-driven recursion; exactly one response write on every path; error edges answer with the 400 constructor. Genuine residual defects are listed as known findings.",
          "MIR panic-site inventory + dominance-based guard recognition over the call graph; SCC recursion check; CFG path counting", "§4 C04"),
  "C06": ("other", "Structural: panics of request handling are contained by catch_unwind (cut-edge reachability from the worker loop), the accept loop returns only when the listener is exhausted, the queue lock is not held while a task runs, the worker loop has no exit; stack-exhausting recursion is reported.",
